@@ -14,6 +14,7 @@ pub mod c12;
 pub mod c13;
 pub mod c14;
 pub mod c16;
+pub mod c17;
 pub mod c18;
 
 pub fn property(id: &str) -> Option<Property> {
@@ -32,6 +33,7 @@ pub fn property(id: &str) -> Option<Property> {
         "C13" => Some(c13::property()),
         "C14" => Some(c14::property()),
         "C16" => Some(c16::property()),
+        "C17" => Some(c17::property()),
         "C18" => Some(c18::property()),
         _ => None,
     }
